@@ -34,6 +34,31 @@ func Spec(prop, tier string) *core.CheckSpec {
 			Stub:   []string{"goroutine scheduling decisions (controlled baton-passing scheduler driven by the tape)", "host callbacks emit/probe"},
 			Assume: []string{"scheduler hooks in runtime/thread.go cover every blocking operation of coroutine hand-off (cross-checked by the watchdog: an unhooked block shows as a hang)"},
 		}
+	case "C05":
+		return &core.CheckSpec{
+			Property: "C05", Level: "fault_enumeration",
+			Rule: "fault = CPU limit L (the context is destroyed at the first metering point reaching L); per generated program: unlimited reference run (twice, determinism), then limited runs at L in {1,2,u-1,u,u+1,2u}, just after tape-chosen events of the reference log, and random; thorough tier sweeps every L in [1,u+1] for small programs; adversarial templates (never-ending programs that try to intercept or outrun the kill) under tape-chosen limits. non-trivial = at least one limited run was killed; distinct = hash(program text, number of killed runs, schedule) / hash(template instance, limits)",
+			Batches: []core.Batch{
+				{Engine: "quota", Mode: "cpu", Runs: n(20000, 2000000), Millis: ms(25000, 500000)},
+				{Engine: "quotaadv", Mode: "cpu", Runs: n(4000, 400000), Millis: ms(20000, 300000), HangS: 60, Chunk: 300},
+				{Engine: "quota", Mode: "cpu-sweep", Runs: n(150, 200000), Millis: ms(12000, 400000), HangS: 120, Chunk: 50},
+			},
+			Real:   realAll,
+			Stub:   []string{"goroutine scheduling decisions (controlled scheduler)", "host callbacks emit/probe", "the instant of termination is observed through the verifOnTerminate hook"},
+			Assume: []string{"K6 (no unmetered work) is checked against the real clock with a 10 s bound per run: CPU work cannot be virtualised"},
+		}
+	case "C06":
+		return &core.CheckSpec{
+			Property: "C06", Level: "fault_enumeration",
+			Rule: "fault = memory limit M (failing allocation at the first charge that would reach M); per generated program: unlimited reference run, limited runs at M around stamps of the reference log and random; oracle: accounted memory < M at every event, killed runs are prefixes, completed runs identical, monotone in M; adversarial amplification templates with size parameters up to 2^63 under small M with a Go-heap bound. non-trivial = at least one limited run was killed",
+			Batches: []core.Batch{
+				{Engine: "quota", Mode: "mem", Runs: n(20000, 2000000), Millis: ms(25000, 500000)},
+				{Engine: "quotaadv", Mode: "mem", Runs: n(4000, 400000), Millis: ms(25000, 400000), HangS: 60, Chunk: 300},
+			},
+			Real:   realAll,
+			Stub:   []string{"goroutine scheduling decisions (controlled scheduler)", "host callbacks emit/probe"},
+			Assume: []string{"heap bound M3 uses runtime.MemStats.TotalAlloc of the worker process: 64*M + 256 MiB per run"},
+		}
 	}
 	return nil
 }
